@@ -231,7 +231,7 @@ def cmp_table(rep, F, rule='ORDER-TABLE'):
                 rep.violation(rule, key, 'two zeros must compare Equal; returns %s' % o[:80], fn.where())
             continue
         if same_nonzero != 3 or unknown:
-            rep.undecided(rule, key, 'path predicates outside the table: %s' % (unknown or 'sign prologue not recognised'), fn.where())
+            rep.undecided_anchor(rule, key, 'path predicates outside the table: %s' % (unknown or 'sign prologue not recognised'), fn.where())
             continue
         n += 1
         # relation of the base to M (magnitude order of self vs other): +0 same, +1 reversed
@@ -261,7 +261,7 @@ def cmp_table(rep, F, rule='ORDER-TABLE'):
                 continue
             rel = 1            # larger scale = smaller magnitude
         else:
-            rep.undecided(rule, key, 'unrecognised comparison base %s' % base[:100], fn.where())
+            rep.undecided_anchor(rule, key, 'unrecognised comparison base %s' % base[:100], fn.where())
             continue
         total = (rel + rev) % 2
         bad = [sg for sg in sorted(signs) if total != (1 if sg == 'Minus' else 0)]
